@@ -28,7 +28,7 @@ class World:
         nm = os.environ.get("VERIF_NORM")
         if nm:
             from . import inline
-            ms, sz = {"1": (1, 400), "2": (4, 250), "3": (8, 600)}.get(nm, (1, 400))
+            ms, sz = {"1": (1, 6000), "2": (4, 250), "3": (8, 600)}.get(nm, (1, 6000))
             self.norm = inline.normalise(self.P, max_sites=ms, max_size=sz)
         self._api = None
         self._macros = None
